@@ -12,6 +12,16 @@
     @ try_into_scalar <rows> <cols>         → ok(<id>) | err
     @ into_tensor <rows> <cols> <n1> <n2>   → ok shape=<shape> | err <shape>
     @ linalg <fn> <rows> <cols> <singular>  → some[ <r>x<c>…] | none
+    @ record_get <shape> <order> <idx> [via=owned|ref|mut]
+                                            TensorAccess over a RecordTensor (owned, &, &mut):
+                                            try_get_as_record → some(<id>) | none
+    @ record_mget <rows> <cols> <r> <c>     RecordMatrix::try_get_as_record → some(<id>) | none
+    @ from_usize <type> <n>                 FromUsize::from_usize → some(<n>) | none (floats / records of floats: some(true))
+    @ dim_lookup <length_of|last_index_of|position_of> <shape> <name> [via=tensor|view|dims]
+                                            → some(<n>) | none
+    @ named <range|mask> <shape> <name:start:len,…> [via=tensor|tensor_mut|tensor_owned|view|view_mut|view_owned]
+                                            the lenient named methods of Tensor / TensorView
+                                            → ok shape=<shape> cells=<ids> | err …
     @ record <tensor|matrix> <shape> <hists>            from_iter
     @ records <tensor|matrix> <shape> <hists>|<hists>   from_iters, N = 2
   Cases with a current tensor view (ids = 1000·leaf + flat offset)
@@ -137,6 +147,11 @@ def recordOne (kind : String) (shape : Shape String) (hists : List (Option Nat))
         | .error e => showRecordError e) (recordMatrixFromIter A r c "rows" "columns" hists)
     | _ => "bad-op"
 
+/-- every index tuple of a shape (lengths), last coordinate fastest -/
+def allIndexes : List Nat → List (List Nat)
+  | [] => [[]]
+  | l :: ls => (List.range l).flatMap fun i => (allIndexes ls).map fun rest => i :: rest
+
 def sizeStr (v : MView) : String := s!"{v.rows}x{v.columns}"
 
 def setT (s : State) (r : Outcome (Except (RangeError String) (TView String))) : State × String :=
@@ -169,6 +184,69 @@ def step (s : State) (toks : List String) : State × String :=
     | some st, some e =>
       let r := IndexRange.ofStdRange st e
       ({}, s!"ok {r.start}:{r.length}")
+    | _, _ => ({}, "bad-op")
+  | "@" :: "record_get" :: shapeS :: orderS :: idxS :: _ =>
+    -- `TensorAccess::from(<RecordTensor of the shape, owned / & / &mut>, order).try_get_as_record(idx)`;
+    -- the records hold their flat offsets
+    match parseShape shapeS, parseNatList idxS with
+    | some shape, some idx =>
+      match leaf shape 0 with
+      | none => ({}, "bad-op")
+      | some t =>
+        match accessTryFrom t (parseNames orderS) with
+        | .ok (.ok a) => ({}, showOutcome showOpt (a.get idx))
+        | _ => ({}, "bad-op")
+    | _, _ => ({}, "bad-op")
+  | "@" :: "record_mget" :: rS :: cS :: iS :: jS :: _ =>
+    match rS.toNat?, cS.toNat?, iS.toNat?, jS.toNat? with
+    | some r, some c, some i, some j =>
+      ({}, showOutcome showOpt ((MView.ofMatrix ⟨r * c, r, c⟩).get i j))
+    | _, _, _, _ => ({}, "bad-op")
+  | "@" :: "from_usize" :: ty :: nS :: _ =>
+    -- `FromUsize::from_usize(n)`: `Some` exactly when `n` is representable in the type (always
+    -- for the floats, which answer whether the value is `n as f..`)
+    match nS.toNat? with
+    | some n =>
+      let intMax : Option Nat :=
+        if ty = "u8" ∨ ty = "wrapping_u8" then some 255
+        else if ty = "i8" ∨ ty = "record_i8" ∨ ty = "trace_i8" then some 127
+        else if ty = "u16" then some 65535
+        else if ty = "i16" ∨ ty = "saturating_i16" then some 32767
+        else if ty = "u32" then some 4294967295
+        else if ty = "i32" then some 2147483647
+        else if ty = "i64" ∨ ty = "isize" then some 9223372036854775807
+        else if ty = "u64" ∨ ty = "usize" ∨ ty = "u128" ∨ ty = "i128" then some usizeMax
+        else none
+      match intMax with
+      | some m => ({}, if n ≤ m then s!"some({n})" else "none")
+      | none => ({}, "some(true)")
+    | none => ({}, "bad-op")
+  | "@" :: "dim_lookup" :: fn :: shapeS :: name :: _ =>
+    match parseShape shapeS with
+    | some shape =>
+      let name := if name = "_empty_" then "" else name
+      ({}, showOpt (if fn = "length_of" then lengthOf shape name
+                    else if fn = "last_index_of" then lastIndexOf shape name
+                    else positionOf shape name))
+    | none => ({}, "bad-op")
+  | "@" :: "named" :: kind :: shapeS :: argsS :: _ =>
+    -- `Tensor::{range, range_mut, range_owned, mask, mask_mut, mask_owned}` and the same six
+    -- methods of `TensorView` (the lenient named constructors), then every element of the result
+    match parseShape shapeS, parseNamedRanges argsS with
+    | some shape, some args =>
+      match leaf shape 0 with
+      | none => ({}, "bad-op")
+      | some t =>
+        match (if kind = "mask" then maskFrom A t args else rangeFrom A t args) with
+        | .panic k => ({}, s!"panic({k})")
+        | .ok (.error e) => ({}, showRangeError e)
+        | .ok (.ok w) =>
+          let cells := (allIndexes (w.shape.map (·.2))).map fun idx =>
+            match w.get idx with
+            | .ok (some i) => toString i
+            | .ok none => "none"
+            | .panic k => s!"panic({k})"
+          ({}, s!"ok shape={showShape w.shape} cells={if cells.isEmpty then "-" else ",".intercalate cells}")
     | _, _ => ({}, "bad-op")
   | "@" :: "is_valid" :: shapeS :: _ =>
     match parseShape shapeS with
